@@ -65,7 +65,10 @@ class MeshLine1(MeshSimplex, Mesh):
 
     def _adaptive(self, marked):
         p, t = self.doflocs, self.t
-        marked = np.unique(np.asarray(marked, dtype=np.int64))
+        marked = np.asarray(marked)
+        if marked.dtype == bool:
+            marked = np.nonzero(marked)[0]  # a mask of the cells
+        marked = np.unique(marked.astype(np.int64))
 
         mid = np.arange(len(marked)) + p.shape[1]
         nonmarked = np.setdiff1d(np.arange(t.shape[1]), marked)
